@@ -837,6 +837,9 @@ func runCase(c *hx.Ctx, s sweep, n int, v variant, rows map[string]row) {
 	}
 	human := func(n int, v variant) string {
 		h := fmt.Sprintf("%s with %d distinct entries (table %s)", s.name, n, s.table)
+		if s.table == "" {
+			h = fmt.Sprintf("%s: %d", s.name, n)
+		}
 		if len(v.reuse) > 0 {
 			h += fmt.Sprintf(", then entries %v used again", v.reuse)
 		}
@@ -1067,7 +1070,7 @@ func specValidation(c *hx.Ctx) {
 
 func run(c *hx.Ctx) error {
 	res := c.Res
-	res.Rule = "encoders: every regenerated encode/decode function against the real one on the whole domain when it has at most 65536 points, otherwise boundary values (±2^k, ±2^k±1) and random operands; round trips on the real code exhaustively (Int16, Uint16, ValueIndex, RenderContext, SetVar index, one-byte index) or on boundary + random values (Uint24). sweeps: generated programs/templates whose count of one resource is n, for n just below, at and just above the limit of its table (plus random n, 2·limit+1); at the full table and one short of it the de-duplicated tables (constants of each kind, types, functions, natives, field paths, globals, closure variables, template constants) are swept again with entries used a second time (first, last, a random middle one, several), inside a function literal, and with further entries declared but never used: these must build and print the generator's output whenever the plain program of that size does; non-trivial = n within 2 of the limit; distinct by (sweep, n, variant)"
+	res.Rule = "encoders: every regenerated encode/decode function against the real one on the whole domain when it has at most 65536 points, otherwise boundary values (±2^k, ±2^k±1) and random operands; round trips on the real code exhaustively (Int16, Uint16, ValueIndex, RenderContext, SetVar index, one-byte index) or on boundary + random values (Uint24). sweeps: generated programs/templates whose count of one resource is n, for n just below, at and just above the limit of its table (plus random n, 2·limit+1); at the full table and one short of it the de-duplicated tables (constants of each kind, types, functions, natives, field paths, globals, closure variables, template constants) are swept again with entries used a second time (first, last, a random middle one, several), inside a function literal, and with further entries declared but never used: these must build and print the generator's output whenever the plain program of that size does; non-trivial = n within 2 of the limit; distinct by (sweep, n, variant); arity sweeps (counts and literal indexes that travel as one-byte immediates: variadic arguments, append operands, composite literal sizes and keyed indexes, multiple assignment, results, switch cases, concatenation operands, nesting depth) at 1, 2, 126…129, 255…257 and random sizes below 300"
 	specValidation(c)
 
 	if c.Replay != "" {
